@@ -15,7 +15,10 @@ def genRaw : RawFacts :=
     freezeWraps := C16.freezeWraps,
     sortedArg := C16.sortedArg, reversedArg := C16.reversedArg,
     constantFoldsLists := C16.constantFoldsLists, listSlice := C16.listSlice,
-    natives := C18.natives, equalVia := C18.equalVia }
+    natives := C18.natives, equalVia := C18.equalVia,
+    listAddAcceptsFrozen := C18.listAddAcceptsFrozen, frozenListEmbedsList := C18.frozenListEmbedsList,
+    frozenListMethods := C18.frozenListMethods,
+    opsCompare := C16.opsCompare, opsRestCalls := C16.opsRestCalls, opsRecheck := C16.opsRecheck }
 
 /-- The asp model at the regenerated facts. -/
 def genF : Facts := factsOf genRaw
